@@ -4,12 +4,18 @@
 
   Only property theorems, their non-vacuity examples and the axiom audit live here.
   Models: Model/NotesTree.lean (refs.rs notes-tree logic, range builders, `WF`),
-          Model/NoteFormat.lean (C17, the text format).
+          Model/NoteFormat.lean (C17, the text format),
+          Model/Sys.lean + Model/Rewrite.lean (history level: notes written through the wrapper),
+          Model/SquashNote.lean (the note `rewrite_authorship_after_squash_or_rebase` writes for a
+          squash / rebase merge made outside the wrapper: `git-ai squash-authorship`, `git-ai ci …`;
+          which commit its call sites name is re-read from the source, Extracted/SquashArgs.lean).
 -/
 import GitAiModel.Lemmas.NotesTree
 import GitAiModel.Props.C17
 import GitAiModel.Base.Chars
 import GitAiModel.Lemmas.RewriteWF
+import GitAiModel.Lemmas.SquashNote
+import GitAiModel.Extracted.SquashArgs
 namespace GitAi.NotesTree
 open GitAi GitAi.NoteFormat
 
@@ -517,83 +523,37 @@ theorem postcommit_file_wf (f : Nat → Option Str) (n : Nat) (hn : n ≤ u32Max
     (intervals with start ≤ end ≤ `u32::MAX`). -/
 theorem merge_ranges_sorted_disjoint (ranges : List (Nat × Nat))
     (h : ∀ p ∈ ranges, p.1 ≤ p.2 ∧ p.2 ≤ u32Max) :
-    sortedDisjoint (mergeRanges ranges) = true ∧ ∀ r ∈ mergeRanges ranges, lo r ≤ hi r := by
-  have hmem_ins : ∀ (x : Nat × Nat) (l : List (Nat × Nat)) (y : Nat × Nat),
-      y ∈ insertPair x l → y = x ∨ y ∈ l := by
-    intro x l
-    induction l with
-    | nil => intro y hy; simpa [insertPair] using hy
-    | cons z l ih =>
-      intro y hy
-      unfold insertPair at hy
-      split at hy
-      · rcases List.mem_cons.1 hy with rfl | hy
-        · right; simp
-        · rcases ih y hy with h | h
-          · left; exact h
-          · right; simp [h]
-      · rcases List.mem_cons.1 hy with rfl | hy
-        · left; rfl
-        · right; exact hy
-  have hmem_sort : ∀ (l : List (Nat × Nat)) (y : Nat × Nat), y ∈ sortPairs l → y ∈ l := by
-    intro l
-    induction l with
-    | nil => intro y hy; cases hy
-    | cons x l ih =>
-      intro y hy
-      rcases hmem_ins x (sortPairs l) y hy with rfl | hy
-      · simp
-      · simp [ih y hy]
-  -- the merge loop
-  have hloop : ∀ (rest : List (Nat × Nat)) (cs ce : Nat), cs ≤ ce → ce ≤ u32Max →
-      (∀ p ∈ rest, p.1 ≤ p.2 ∧ p.2 ≤ u32Max) →
-      ∃ ce' tail, mergeLoop rest (cs, ce) = (cs, ce') :: tail ∧ ce ≤ ce' ∧
-        sortedDisjoint ((mergeLoop rest (cs, ce)).map (fun p => mkRange p.1 p.2)) = true ∧
-        ∀ p ∈ mergeLoop rest (cs, ce), p.1 ≤ p.2 := by
-    intro rest
-    induction rest with
-    | nil =>
-      intro cs ce h1 _ _
-      refine ⟨ce, [], rfl, Nat.le_refl _, by simp [mergeLoop, sortedDisjoint], ?_⟩
-      intro p hp; simp only [mergeLoop, List.mem_singleton] at hp; subst hp; exact h1
-    | cons x rest ih =>
-      intro cs ce h1 h2 hr
-      obtain ⟨s, e⟩ := x
-      have hx := hr (s, e) (by simp)
-      have hr' : ∀ p ∈ rest, p.1 ≤ p.2 ∧ p.2 ≤ u32Max := fun p hp => hr p (by simp [hp])
-      unfold mergeLoop
-      by_cases hc : s ≤ satSucc ce
-      · rw [if_pos hc]
-        obtain ⟨ce', tail, q1, q2, q3, q4⟩ := ih cs (max ce e) (by omega) (by simp at hx ⊢; omega) hr'
-        exact ⟨ce', tail, q1, by omega, q3, q4⟩
-      · rw [if_neg hc]
-        obtain ⟨ce', tail, q1, q2, q3, q4⟩ := ih s e hx.1 hx.2 hr'
-        refine ⟨ce, _, rfl, Nat.le_refl _, ?_, ?_⟩
-        · rw [q1] at q3 ⊢
-          simp only [List.map_cons, sortedDisjoint, hi_mkRange, lo_mkRange, Bool.and_eq_true,
-            decide_eq_true_eq]
-          refine ⟨?_, by simpa [sortedDisjoint, hi_mkRange] using q3⟩
-          unfold satSucc at hc
-          split at hc <;> omega
-        · intro p hp
-          rcases List.mem_cons.1 hp with rfl | hp
-          · exact h1
-          · exact q4 p hp
-  unfold mergeRanges
-  have hs : ∀ p ∈ sortPairs ranges, p.1 ≤ p.2 ∧ p.2 ≤ u32Max := fun p hp => h p (hmem_sort ranges p hp)
-  match hsp : sortPairs ranges with
-  | [] => simp [sortedDisjoint]
-  | r :: rest =>
-    rw [hsp] at hs
-    obtain ⟨r1, r2⟩ := r
-    have hr := hs (r1, r2) (by simp)
-    obtain ⟨_, _, _, _, q3, q4⟩ := hloop rest r1 r2 hr.1 hr.2 (fun p hp => hs p (by simp [hp]))
-    refine ⟨q3, ?_⟩
-    intro q hq
-    simp only [List.mem_map] at hq
-    obtain ⟨p, hp, rfl⟩ := hq
-    rw [lo_mkRange, hi_mkRange]
-    exact q4 p hp
+    sortedDisjoint (mergeRanges ranges) = true ∧ ∀ r ∈ mergeRanges ranges, lo r ≤ hi r :=
+  mergeRanges_sortedDisjoint ranges h
+
+/-- … and merging never adds a line: a line the merged ranges list is a line of some input interval
+    (whatever the order of the input; adjacent intervals are joined, gaps are never bridged) -/
+theorem merge_ranges_lists_only_input_lines (ranges : List (Nat × Nat)) (x : Nat)
+    (h : coversAny (mergeRanges ranges) x = true) : ∃ p ∈ ranges, p.1 ≤ x ∧ x ≤ p.2 :=
+  mergeRanges_sound ranges x h
+
+/-- **the file block built from line attributions** (`build_file_attestation_from_line_attributions`
+    of the rebase / cherry-pick content path and the identical loop of
+    `VirtualAttributions::to_authorship_log` used by the squash / CI path): if every input line
+    attribution lies inside `1..n` and names the author a per-line function `f` gives each of its
+    lines, the block has no `human` entry, every range is inside `1..n`, the ranges of an entry are
+    ascending and disjoint, the ranges of different entries are disjoint, and every entry's author
+    is the author of some line of the file. -/
+theorem build_file_attestation_wf (path : Str) (attrs : List LineAttr) (f : Nat → Option Str) (n : Nat)
+    (hn : n ≤ u32Max)
+    (hattrs : ∀ la ∈ attrs, la.start ≤ la.stop ∧ 1 ≤ la.start ∧ la.stop ≤ n ∧
+      ∀ x, la.start ≤ x → x ≤ la.stop → f x = some la.author)
+    (g : FileAtt) (hg : buildFileAttestation path attrs = some g) :
+    g.path = path ∧
+    (∀ e ∈ g.entries, e.hash ≠ humanId ∧ e.ranges.all (rangeWF n) = true ∧
+      sortedDisjoint e.ranges = true ∧ ∃ x, 1 ≤ x ∧ x ≤ n ∧ f x = some e.hash) ∧
+    pairwiseDisjoint (g.entries.flatMap (fun e => e.ranges)) = true :=
+  buildFileAttestation_wf path attrs f n hn hattrs g hg
+
+/-- the hypothesis "inside `1..n`" is forced: the builder trusts the line numbers it is given -/
+theorem witness_build_file_attestation_trusts_line_numbers :
+    buildFileAttestation (chars% "a") [⟨7, 8, chars% "h"⟩] = some ⟨chars% "a", [⟨chars% "h", [.range 7 8]⟩]⟩ ∧
+    rangeWF 6 (.range 7 8) = false := by decide
 
 example : mergeRanges [(5, 6), (1, 2), (3, 3), (9, 9), (2, 2)] = [.range 1 3, .range 5 6, .single 9] := by
   decide
@@ -705,6 +665,9 @@ end GitAi.NotesTree
 #print axioms GitAi.NotesTree.wf_ranges_from_line_function
 #print axioms GitAi.NotesTree.postcommit_file_wf
 #print axioms GitAi.NotesTree.merge_ranges_sorted_disjoint
+#print axioms GitAi.NotesTree.merge_ranges_lists_only_input_lines
+#print axioms GitAi.NotesTree.build_file_attestation_wf
+#print axioms GitAi.NotesTree.witness_build_file_attestation_trusts_line_numbers
 #print axioms GitAi.NotesTree.upsert_absent_file_removed
 #print axioms GitAi.NotesTree.upsert_keeps_other_files
 #print axioms GitAi.NotesTree.serialize_wf_grammar
@@ -735,3 +698,113 @@ example :
 end GitAi.Sys
 
 #print axioms GitAi.Sys.wf_all_notes
+
+
+/-! ## The note written OUTSIDE the wrapper: `rewrite_authorship_after_squash_or_rebase`
+    (`git-ai squash-authorship`, `git-ai ci …`) — Model/SquashNote.lean -/
+namespace GitAi.SquashNote
+open GitAi GitAi.NoteFormat GitAi.NotesTree
+
+/-- **named obligation, re-read from the source on every run** (extract/squash_args.py →
+    Extracted/SquashArgs.lean): the final state the merged attributions are projected onto is read
+    at the MERGE commit (`get_committed_files_content(repo, merge_commit_sha, …)`), the note records
+    the merge commit as base and is attached to the merge commit — in the main branch and in the
+    "no AI-touched file" branch of the function. -/
+theorem squash_args_name_merge_commit : Extracted.SquashArgs.args = Args.intended := by decide
+
+/-- **squash_note_wf (full statement).** For every source head, target head and merge commit
+    (any contents, any files present or absent in any of them), every list of changed AI-touched
+    paths (any order, repeats, paths that exist nowhere), every pair of VirtualAttributions (any
+    contents, any authors): if the call sites name the merge commit (`hargs` — discharged for the
+    code as it is by `squash_args_name_merge_commit`) then whenever the function writes a note it
+    attaches it to the merge commit, and the note is `WF` against THE MERGE COMMIT: every file it
+    names is in the merge commit, every listed line number is `≥ 1` and `≤` the file's line count
+    at the merge commit, the ranges of an entry are ascending and disjoint, ranges of different
+    entries of a file are disjoint, no `human` entry, every hash has a prompt record, base = merge
+    commit. Hypotheses: line counts fit `u32`; every non-`human` author the two VirtualAttributions
+    name has a prompt record in them (`PromptsOK`, cf. `discover_and_load_foreign_prompts`). -/
+theorem squash_note_wf (args : Args) (i : Inputs) (hargs : args = Args.intended)
+    (hlen : ∀ pc ∈ i.merge.files, pc.2.length ≤ u32Max)
+    (ht : PromptsOK i.targetVA) (hs : PromptsOK i.sourceVA)
+    (c : Commit) (note : Note) (h : squashNote args i = some (c, note)) :
+    c = i.merge ∧ WF note (commitFacts i.merge) = true :=
+  squashNote_wf args i hargs hlen ht hs c note h
+
+/-- … for the code as it is: no hypothesis on the call sites left -/
+theorem squash_note_wf_extracted (i : Inputs)
+    (hlen : ∀ pc ∈ i.merge.files, pc.2.length ≤ u32Max)
+    (ht : PromptsOK i.targetVA) (hs : PromptsOK i.sourceVA)
+    (c : Commit) (note : Note) (h : squashNote Extracted.SquashArgs.args i = some (c, note)) :
+    c = i.merge ∧ WF note (commitFacts i.merge) = true :=
+  squashNote_wf _ i squash_args_name_merge_commit hlen ht hs c note h
+
+/-! ### non-vacuity and the excluded regions -/
+
+def hA : Str := chars% "d9978a8723e02b52"
+
+/-- target deleted lines 3–4 above the two AI lines the source appended (ids 100, 101) -/
+def exDeleteAbove : Inputs :=
+  { source := ⟨chars% "5rc", [(chars% "a.txt", [1, 2, 3, 4, 5, 6, 100, 101]), (chars% "o.txt", [50])]⟩,
+    target := ⟨chars% "7gt", [(chars% "a.txt", [1, 2, 5, 6]), (chars% "o.txt", [50])]⟩,
+    merge := ⟨chars% "3e7", [(chars% "a.txt", [1, 2, 5, 6, 100, 101]), (chars% "o.txt", [50])]⟩,
+    changed := [chars% "a.txt", chars% "gone.txt", chars% "a.txt"],
+    sourceVA := ⟨[(chars% "a.txt", ([1, 2, 3, 4, 5, 6, 100, 101], [none, none, none, none, none, some humanId, some hA, some hA]))], [hA]⟩,
+    targetVA := ⟨[(chars% "a.txt", ([1, 2, 5, 6], [none, none, none, none]))], []⟩,
+    sourceHasNotes := true }
+
+example : PromptsOK exDeleteAbove.sourceVA ∧ PromptsOK exDeleteAbove.targetVA :=
+  ⟨promptsOkB_sound _ (by decide), promptsOkB_sound _ (by decide)⟩
+example : ∀ pc ∈ exDeleteAbove.merge.files, pc.2.length ≤ u32Max := by decide
+
+/-- the function as it is: the AI lines are listed where they are in the merge commit -/
+example : squashNote Args.intended exDeleteAbove
+    = some (exDeleteAbove.merge, ⟨[⟨chars% "a.txt", [⟨hA, [.range 5 6]⟩]⟩], ⟨chars% "3e7", [hA]⟩⟩) := by decide
+
+/-- **the hypothesis on the call sites is forced** (the seeded regression C05-seed2): with the
+    final state read at the SOURCE head the note lists lines 7–8 of a file that has 6 lines in the
+    merge commit … -/
+theorem witness_squash_final_state_at_source_head :
+    (squashNote { Args.intended with finalState := .sourceHead } exDeleteAbove).map (fun cn =>
+      (cn.2.files, WF cn.2 (commitFacts exDeleteAbove.merge)))
+      = some ([⟨chars% "a.txt", [⟨hA, [.range 7 8]⟩]⟩], false) := by decide
+
+/-- … and names a file the merge commit does not have when the target branch renamed it -/
+def exRenamed : Inputs :=
+  { exDeleteAbove with
+    target := ⟨chars% "7gt", [(chars% "b.txt", [1, 2, 3, 4, 5, 6])]⟩,
+    merge := ⟨chars% "3e7", [(chars% "b.txt", [1, 2, 3, 4, 5, 6, 100, 101])]⟩,
+    targetVA := ⟨[], []⟩ }
+
+theorem witness_squash_source_head_names_absent_file :
+    (squashNote { Args.intended with finalState := .sourceHead } exRenamed).map (fun cn =>
+      (cn.2.files.map (·.path), WF cn.2 (commitFacts exRenamed.merge))) = some ([chars% "a.txt"], false) ∧
+    (squashNote Args.intended exRenamed).map (fun cn => (cn.2.files, WF cn.2 (commitFacts exRenamed.merge)))
+      = some ([], true) := by decide
+
+/-- a wrong base / a note attached to another commit is rejected as well -/
+theorem witness_squash_base_or_target_elsewhere :
+    (squashNote { Args.intended with baseSha := .sourceHead } exDeleteAbove).map (fun cn =>
+      WF cn.2 (commitFacts cn.1)) = some false ∧
+    (squashNote { Args.intended with noteOn := .targetHead } exDeleteAbove).map (fun cn =>
+      WF cn.2 (commitFacts cn.1)) = some false := by decide
+
+/-- **`PromptsOK` is forced**: an author without a prompt record in either VirtualAttributions
+    ends up in the note without one -/
+theorem witness_squash_author_without_prompt :
+    (squashNote Args.intended { exDeleteAbove with sourceVA := { exDeleteAbove.sourceVA with promptKeys := [] } }).map
+      (fun cn => WF cn.2 (commitFacts exDeleteAbove.merge)) = some false := by decide
+
+/-- no AI-touched file changed: a metadata-only note on the merge commit, or nothing -/
+example : squashNote Args.intended { exDeleteAbove with changed := [] }
+    = some (exDeleteAbove.merge, ⟨[], ⟨chars% "3e7", [hA]⟩⟩) := by decide
+example : squashNote Args.intended { exDeleteAbove with changed := [], sourceHasNotes := false } = none := by decide
+
+end GitAi.SquashNote
+
+#print axioms GitAi.SquashNote.squash_args_name_merge_commit
+#print axioms GitAi.SquashNote.squash_note_wf
+#print axioms GitAi.SquashNote.squash_note_wf_extracted
+#print axioms GitAi.SquashNote.witness_squash_final_state_at_source_head
+#print axioms GitAi.SquashNote.witness_squash_source_head_names_absent_file
+#print axioms GitAi.SquashNote.witness_squash_base_or_target_elsewhere
+#print axioms GitAi.SquashNote.witness_squash_author_without_prompt
